@@ -96,6 +96,11 @@ CustomPress(K, c) ==
     [] c.c = "mousetap" -> [K EXCEPT !.out = @ \o <<Ev("bd", c.btn), Ev("bu", c.btn)>>]
     [] c.c = "lrld" -> [K EXCEPT !.lrr = TRUE]
     [] c.c = "cancel_macro_press" -> [K EXCEPT !.mcd = c.d]
+    \* src: mod.rs CustomAction::Repeat arm (`rpt`): release, press, release of last_pressed_key
+    \* (KeyCode::No = code 240 before any key was pressed); caps-word is not modelled
+    [] c.c = "repeat" ->
+         LET k == IF K.lpk = 0 THEN 240 ELSE K.lpk IN
+         [K EXCEPT !.out = @ \o ReleaseKeyOut(k) \o PressKeyOut(k) \o ReleaseKeyOut(k)]
     \* src: mod.rs DynamicMacroRecord / DynamicMacroRecordStop / DynamicMacroPlay arms (1590-1612)
     [] c.c = "dynrec" -> DynApply(K, DmBeginRecord(K.dyn, c.n))
     [] c.c = "dynstop" -> DynApply(K, DmStopMacro(K.dyn, c.n))
@@ -125,7 +130,8 @@ CustomReleaseAll(K, cs, pbtn) ==
               CustomReleaseAll([K EXCEPT !.L = FakeKeyOp(@, c.op, c.x, c.y)], Tail(cs), pbtn)
          [] c.c = "cancel_macro_rel" ->
               CustomReleaseAll([K EXCEPT !.mcd = 0, !.L.seqs = <<>>,
-                                         !.L.states = SelectSeq(@, LAMBDA s : s.t \notin {"fk", "rs"})],
+                                         !.L.states = SelectSeq(@, LAMBDA s : s.t \notin (IF Bug = "cancel_keeps_fk" THEN {"rs"}
+                                                                                         ELSE {"fk", "rs"}))],
                                Tail(cs), pbtn)
          [] OTHER -> CustomReleaseAll(K, Tail(cs), pbtn)
 
